@@ -52,6 +52,7 @@ type Step struct {
 	Fals     Fals       `json:"fals"`
 	Fault    int        `json:"fault"`
 	NLen     int        `json:"nlen"`
+	Runs     int        `json:"runs"`
 	Items    []string   `json:"items"`
 	NPriRand int        `json:"nprirand"`
 	Truth    []bool     `json:"truth"`
@@ -135,13 +136,13 @@ func build(tree [][]rep, wrap string) (top proof.Predicate, or proof.Predicate) 
 }
 
 type statement struct {
-	s       *suites.S
-	name    string
-	ns, nb  int
-	x       map[string]kyber.Scalar // true secrets
-	px      map[string]kyber.Scalar // prover's secrets (possibly falsified)
-	pts     map[string]kyber.Point
-	tree    [][]rep
+	s      *suites.S
+	name   string
+	ns, nb int
+	x      map[string]kyber.Scalar // true secrets
+	px     map[string]kyber.Scalar // prover's secrets (possibly falsified)
+	pts    map[string]kyber.Point
+	tree   [][]rep
 }
 
 func maxIdx(tree [][][]Term) (ns, nb int) {
@@ -420,12 +421,19 @@ func Run(cfg Config, res *core.Result) error {
 	return nil
 }
 
+// denObjs: the Prover / Verifier values of participant 0's statement, kept across the sessions of one behaviour
+type denObjs struct {
+	prover proof.Prover
+	vrf    map[int]proof.Verifier
+}
+
 type replayer struct {
-	cfg Config
-	res *core.Result
-	s   *suites.S
-	bh  behaviour
-	tr  *tracer
+	rerun bool // judging a run after the first on the same Prover / Verifier values
+	cfg   Config
+	res   *core.Result
+	s     *suites.S
+	bh    behaviour
+	tr    *tracer
 }
 
 func (r *replayer) caseKey() string {
@@ -439,6 +447,9 @@ func (r *replayer) caseKey() string {
 	}
 	if st[0].Fault != 0 {
 		c = "fault-" + c
+	}
+	if r.rerun {
+		c = "rerun-" + c
 	}
 	return c
 }
@@ -502,6 +513,7 @@ func (r *replayer) run() error {
 	var rec *recorder
 	traced := r.tr != nil && r.tr.want()
 	prover := pred.Prover(s, m.px, m.pts, choice)
+	proverObj := prover // the Prover value itself (re-run below when runs > 1)
 	if traced {
 		rec = &recorder{role: "prover"}
 		inner := prover
@@ -576,6 +588,7 @@ func (r *replayer) run() error {
 	}
 	vpred, _ := build(vtree, pv.Wrap)
 	verifier := vpred.Verifier(s, vpts)
+	verifierObj := verifier
 	var vrec *recorder
 	if traced && mu.K == "none" {
 		vrec = &recorder{role: "verifier"}
@@ -589,18 +602,57 @@ func (r *replayer) run() error {
 	r.res.Eval(id + "/hash")
 	r.judge("hash", must, verr, nil)
 
+	// ---- object re-use: the same Prover closure proves again, the same Verifier closure verifies again; then the same
+	// Predicate value yields a Prover for another branch (verdict: that branch's truth)
+	den := &denObjs{}
+	if pv.Runs > 1 && mu.K == "none" {
+		r.rerun = true
+		for i := 2; i <= pv.Runs; i++ {
+			q, e := proof.HashProve(s, m.name, proverObj)
+			r.res.Eval(fmt.Sprintf("%s/hash/run%d", id, i))
+			if e != nil {
+				if must == "acc" {
+					r.violate("hash", "prove-error", "the same Prover value fails when run again", map[string]any{"run": i, "err": e.Error()})
+				}
+				continue
+			}
+			r.judge("hash", must, proof.HashVerify(s, m.name, verifierObj, q), map[string]any{"run": i})
+		}
+		if or != nil && len(m.tree) > 1 {
+			c2 := pv.Choice%len(m.tree) + 1
+			must2 := "rej"
+			if pv.Truth[c2-1] {
+				must2 = "acc"
+			}
+			q, e := proof.HashProve(s, m.name, pred.Prover(s, m.px, m.pts, map[proof.Predicate]int{or: c2 - 1}))
+			r.res.Eval(id + "/hash/choice2")
+			if e == nil {
+				r.judge("hash", must2, proof.HashVerify(s, m.name, verifierObj, q), map[string]any{"second_choice": c2})
+			} else if must2 == "acc" {
+				r.violate("hash", "prove-error", "a second Prover of the same Predicate value fails", map[string]any{"err": e.Error()})
+			}
+		}
+		r.rerun = false
+	}
+
 	// ---- interactive deniable prover with the clique protocol (2 or 3 participants)
 	if r.cfg.Deniable > 0 && mu.K != "name" && mu.K != "simAll" && mu.K != "replayCh" && mu.K != "truncZeroTail" &&
 		(pv.Fault != 0 || core.Hash64(fmt.Sprint(r.cfg.Seed), "den", r.bh.raw)%uint64(r.cfg.Deniable) == 0) {
-		r.deniable(m, pred, choice, vtree, vpts, pv, mu, st[len(st)-1].MustDen, lay, id, traced)
+		r.deniable(m, pred, choice, vtree, vpts, pv, mu, st[len(st)-1].MustDen, lay, id, traced, den)
+		for i := 2; i <= pv.Runs && mu.K == "none"; i++ {
+			r.rerun = true
+			r.deniable(m, pred, choice, vtree, vpts, pv, mu, st[len(st)-1].MustDen, lay, fmt.Sprintf("%s/run%d", id, i), false, den)
+			r.rerun = false
+		}
 	}
 	return nil
 }
 
 // forge: a prover that knows no secret simulates every branch (commitment V = w*P + sum r*B for pre-chosen sub-challenge w
 // and responses r) and emits a transcript with the library's item layout through proof.HashProve.
-//   simAll  : the sub-challenges are random, they do not sum to the real challenge
-//   replayCh: they sum to the challenge of an EARLIER transcript (same protocol name, other commitments)
+//
+//	simAll  : the sub-challenges are random, they do not sum to the real challenge
+//	replayCh: they sum to the challenge of an EARLIER transcript (same protocol name, other commitments)
 func (r *replayer) forge(m *statement, pv Step, kind string) ([]byte, error) {
 	s := r.s
 	nbr := len(m.tree)
@@ -724,7 +776,7 @@ func (c *cnode) Random() kyber.XOF { return c.rnd }
 const keySize = 128 // proof/deniable.go: length of the randomness commitment that prefixes every prover message
 
 func (r *replayer) deniable(m *statement, pred proof.Predicate, choice map[proof.Predicate]int, vtree [][]rep, vpts map[string]kyber.Point,
-	pv Step, mu Mut, must string, lay layout, id string, traced bool) {
+	pv Step, mu Mut, must string, lay layout, id string, traced bool, objs *denObjs) {
 	s := r.s
 	np := 2 + int(core.Hash64("np", r.bh.raw)%2)
 	nodes := make([]*cnode, np)
@@ -743,7 +795,10 @@ func (r *replayer) deniable(m *statement, pred proof.Predicate, choice map[proof
 		vrfs := make([]proof.Verifier, np)
 		var prover proof.Prover
 		if i == 0 {
-			prover = pred.Prover(s, m.px, m.pts, choice)
+			if objs.prover == nil {
+				objs.prover = pred.Prover(s, m.px, m.pts, choice)
+			}
+			prover = objs.prover // the same Prover value in every session of this behaviour
 			if traced {
 				// the interactive prover makes the same context calls as the non-interactive one
 				drec = &recorder{role: "prover"}
@@ -755,8 +810,14 @@ func (r *replayer) deniable(m *statement, pred proof.Predicate, choice map[proof
 		} else {
 			kp := proof.Rep("Y", "y", "B")
 			prover = kp.Prover(s, map[string]kyber.Scalar{"y": ys[i]}, map[string]kyber.Point{"B": B, "Y": Ys[i]}, nil)
-			vp, _ := build(vtree, pv.Wrap)
-			vrfs[0] = vp.Verifier(s, cpPts(vpts))
+			if objs.vrf == nil {
+				objs.vrf = map[int]proof.Verifier{}
+			}
+			if objs.vrf[i] == nil {
+				vp, _ := build(vtree, pv.Wrap)
+				objs.vrf[i] = vp.Verifier(s, cpPts(vpts))
+			}
+			vrfs[0] = objs.vrf[i] // the same Verifier value in every session
 		}
 		proto := proof.DeniableProver(s, i, prover, vrfs)
 		go func(n *cnode, i int) {
